@@ -414,7 +414,11 @@ def toolTags (cfg : ToolCfg) (r : ToolRun TSt Nat Nat TRes) : String :=
 
 /-- a limit token: an integer, or `d` = the caller does not name the limit and the class's default applies (read
     from the class on this run, `Gen/LoopTables.lean`) -/
-def limD (tok : String) (dflt : Option Int) : Int := if tok = "d" then dflt.getD 0 else intD tok
+def limD (tok : String) (dflt : Option Int) : Int :=
+  if tok = "d" then dflt.getD 0 else if tok = "T" then 1 else if tok = "F" then 0 else intD tok
+
+/-- an assigned limit: an integer, or `T` / `F` = Python's `True` / `False` (ints of value 1 / 0) -/
+def limA (tok : String) : Int := limD tok none
 
 /-- a float token, `d` = the default literal of the class -/
 def floatD (tok : String) (dflt : Float) : Float := if tok = "d" then dflt else floatOf tok
@@ -447,7 +451,7 @@ def stepSlot (st : DSt) (toks : List String) : DSt × String :=
     (st, showHeal r ++ " ## " ++ healTags r)
   | ["loop", mr, decay, _mode] =>
     ({ st with hs := { mr := limD mr Loops.Gen.defaultMaxRetries, decay := floatD decay 0.1 } }, "ok")
-  | ["hset", "mr", v] => ({ st with hs := { st.hs with mr := intD v } }, "ok")
+  | ["hset", "mr", v] => ({ st with hs := { st.hs with mr := limA v } }, "ok")
   | ["hset", "decay", v] => ({ st with hs := { st.hs with decay := floatOf v } }, "ok")
   | ["hset", _, "new"] => (st, "ok")           -- a callback attribute re-assigned to an equivalent new callable
   | ["hcall", gs, fs] =>
@@ -458,8 +462,8 @@ def stepSlot (st : DSt) (toks : List String) : DSt × String :=
   | ["swarm", mr, ms, thr] =>
     ({ st with ss := { cfg := ⟨limD mr Loops.Gen.defaultMaxRegenerations, limD ms Loops.Gen.defaultMaxSteps⟩,
                        thr := floatD thr 0.9 }, sw := ⟨0, [], []⟩ }, "ok")
-  | ["sset", "mreg", v] => ({ st with ss := { st.ss with cfg := ⟨intD v, st.ss.cfg.maxSteps⟩ } }, "ok")
-  | ["sset", "ms", v] => ({ st with ss := { st.ss with cfg := ⟨st.ss.cfg.maxRegen, intD v⟩ } }, "ok")
+  | ["sset", "mreg", v] => ({ st with ss := { st.ss with cfg := ⟨limA v, st.ss.cfg.maxSteps⟩ } }, "ok")
+  | ["sset", "ms", v] => ({ st with ss := { st.ss with cfg := ⟨st.ss.cfg.maxRegen, limA v⟩ } }, "ok")
   | ["sset", "thr", v] => ({ st with ss := { st.ss with thr := floatOf v } }, "ok")
   | ["sset", _, "new"] => (st, "ok")
   | ["supervise", fs, ss, ms] =>
@@ -481,6 +485,8 @@ def stepSlot (st : DSt) (toks : List String) : DSt × String :=
     ({ st with nlog := r.1 }, r.2 ++ " tool:live")
   | ["retools", _, _, _] => (st, "ok")   -- re-entrant tool adversary: judged by the harness oracle only
   | ["gtools", _, _] => (st, "ok")       -- tool_calls as a generator object (truthy even when empty): oracle only
+  | ["reheal", _, _] => (st, "ok")       -- the generator re-enters heal() on the loop that is calling it: oracle only
+  | ["resuper", _, _, _] => (st, "ok")   -- a worker's step re-enters supervise() on the swarm that is running it: oracle only
   | _ => (st, "bad-op")
 
 /-- Two slots of live objects (a loop, a swarm and a nucleus each) are alive side by side; `sel 0|1` chooses the
